@@ -523,13 +523,13 @@ def observe_special_family(fam, tier):
 
 
 FAMILIES_OF = {
-    "C01": lambda tier: ["di", "dimw", "mw", "err"],
-    "C02": lambda tier: ["di", "dimw", "mw", "err"],
-    "C03": lambda tier: ["di", "dimw", "mw", "err"],
-    "C04": lambda tier: ["di", "dimw", "mw", "err"],
-    "C05": lambda tier: ["mw"],
-    "C06": lambda tier: ["err"],
-    "C09": lambda tier: ["di", "dimw", "mw", "err", "route"],
+    "C01": lambda tier: ["di", "dimw", "mw", "err", "mix"],
+    "C02": lambda tier: ["di", "dimw", "mw", "err", "mix"],
+    "C03": lambda tier: ["di", "dimw", "mw", "err", "mix"],
+    "C04": lambda tier: ["di", "dimw", "mw", "err", "mix"],
+    "C05": lambda tier: ["mw", "mix"],
+    "C06": lambda tier: ["err", "mix"],
+    "C09": lambda tier: ["di", "dimw", "mw", "err", "route", "mix"],
 }
 
 ORACLES = {"C01": oracle_c01, "C02": oracle_c02, "C03": oracle_c03, "C04": oracle_c04, "C05": oracle_c05,
